@@ -26,7 +26,7 @@ ASSUMPTIONS = [
     "vlib/kgspec.py reproduces the KlattGrid / point-object text layouts of the repository's Praat-written fixtures (trusted base)",
     "-0.0 and 0.0 are the same value",
 ]
-REQUIRED_CLASSES = ["klatt_synthetic:last_subtier_has_points", "klatt_synthetic:one_digit_value", "klatt_synthetic:modified",
+REQUIRED_CLASSES = ["klatt_synthetic:sub_tier_modified_directly_after_save", "klatt_synthetic:ten_or_more_formants", "klatt_synthetic:last_subtier_has_points", "klatt_synthetic:one_digit_value", "klatt_synthetic:modified",
                     "point_objects:zero_points", "point_objects:long", "klatt_fixture:fixture"]
 
 
@@ -139,7 +139,18 @@ def apply_mods(kg, snap, mods):
     secs = {s["name"]: s for s in exp["sections"]}
     for target, fname in mods:
         f = MODS[fname]
-        if "/" in target:
+        if target.count("/") == 2:
+            # one sub tier, modified directly through its own modifyValues (as examples/klatt_resynthesis.py does)
+            cname, gname, idx = target.split("/")
+            if cname not in secs:
+                continue
+            grp = next((g for g in secs[cname]["groups"] if g["name"] == gname), None)
+            if grp is None or not grp["tiers"]:
+                continue
+            t = grp["tiers"][int(idx) % len(grp["tiers"])]
+            kg.getTier(cname).tierDict[gname].tierDict[t["name"]].modifyValues(f)
+            t["points"] = [[a, float(f(b))] for a, b in t["points"]]
+        elif "/" in target:
             cname, gname = target.split("/")
             if cname not in secs:
                 continue
@@ -181,12 +192,17 @@ def run_synthetic(case):
                 if len(kgspec.num(last[-1][1])) == 1:
                     cl.add("one_digit_value")
     if case["mods"]:
+        # kg2 has been saved once already (by _roundtrip): modifications made now must show in the next save
         exp = apply_mods(kg2, snap1, case["mods"])
         got = kgspec.snapshot(kg2)
         diff_snap(got, exp, f"after modifications {case['mods']}")
         _roundtrip(kg2, got, f"round trip after {case['mods']}")
         if exp != snap1:
             cl.add("modified")
+            if any(t.count("/") == 2 for t, _ in case["mods"]):
+                cl.add("sub_tier_modified_directly_after_save")
+    if any(len(g["tiers"]) >= 10 for s in data["sections"] if s["kind"] == "container" for g in s["groups"]):
+        cl.add("ten_or_more_formants")
     nt = any(s["kind"] == "container" and any(pts for g in s["groups"] for pts in g["tiers"]) for s in data["sections"])
     return {"classes": sorted(cl), "nontrivial": nt}
 
@@ -288,7 +304,7 @@ def point_list(draw, hi, max_n=5):
 @st.composite
 def klatt_cases(draw):
     hi = draw(st.sampled_from([1.194625, 2.0, 0.75, 10.0]))
-    secs = kgspec.skeleton(draw(st.integers(1, 5)), draw(st.integers(1, 5)))
+    secs = kgspec.skeleton(draw(st.one_of(st.integers(1, 5), st.integers(1, 5), st.integers(10, 12))), draw(st.integers(1, 5)))
     dense = draw(st.integers(0, 2)) > 0
     for s in secs:
         if s["kind"] == "points":
@@ -303,6 +319,7 @@ def klatt_cases(draw):
               [f"{s['name']}/{g['name']}" for s in secs if s["kind"] == "container" for g in s["groups"]]
     # 'formants' is a substring of the amplitude groups' names: modifying it must not touch them
     targets += ["nasal_antiformants/formants", "tracheal_antiformants/formants", "frication_formants/formants"] * 4
+    targets += [f"{s['name']}/{g['name']}/{i}" for s in secs if s["kind"] == "container" for g in s["groups"][:2] for i in (0, 1)]
     mods = draw(st.lists(st.tuples(st.sampled_from(targets), st.sampled_from(sorted(MODS))).map(list), max_size=3))
     return {"kg": {"xmin": 0.0, "xmax": hi, "sections": secs}, "trailing_blank": draw(st.integers(0, 3)) > 0, "mods": mods}
 
